@@ -162,3 +162,53 @@ def replay(path):
     log("replay of %s: re-running check %s (tier %s, seed %s)" % (path, r["property"], r.get("tier"), r.get("seed")))
     os.environ["VERIF_SEED"] = str(r.get("seed", 1))
     return CHECKS[r["property"]](r.get("tier", "quick"))
+
+
+# ----------------------------------------------------------------------------------------------------------------
+# C12 the framework store
+# ----------------------------------------------------------------------------------------------------------------
+@check("C12")
+def c12(tier):
+    res = Result("C12", tier)
+    vlib.build_harness()
+    thorough = tier == "thorough"
+    # (A) design: the concrete vectors/counters refine the set model; all public observations agree
+    res.add_mc(vlib.mc("MCStoreImpl.tla", cfg="MCStoreImpl.cfg", wd=res.wd, name="MCStoreImpl_3labels", timeout=3000))
+    res.add_mc(vlib.mc("MCStoreImpl.tla", cfg="MCStoreImpl2.cfg", wd=res.wd, name="MCStoreImpl_2labels", timeout=3000))
+    # (B) behaviours of the set model: one history per distinct state, replayed edge by edge into the real store
+    cfg = os.path.join(res.wd, "MCStore_run.cfg")
+    open(cfg, "w").write(open(os.path.join(vlib.SPEC, "MCStore.cfg")).read().replace("MaxIds = 4", "MaxIds = %d" % (5 if thorough else 4)))
+    r = vlib.mc("MCStore.tla", cfg=cfg, wd=res.wd, name="MCStore", timeout=3000)
+    res.add_mc(r)
+    hists = vlib.printed(r["out"], "REPLAY")
+    hfile = os.path.join(res.wd, "hists.jsonl")
+    with open(hfile, "w") as f:
+        for h in hists:
+            f.write(json.dumps(h) + "\n")
+    out = os.path.join(res.wd, "store.ndjson")
+    t = time.time()
+    vlib.vh(["store", "--hists", hfile, "--labels", 3, "--walks", 200 if thorough else 40, "--len", 2000 if thorough else 500,
+             "--seed", seed(), "--out", out, "--threads", vlib.NCPU])
+    segs = vlib.segments(out, openers=("reset",))
+    log("  RUN store: %d histories (one per state of MCStore) x 24 outgoing edges + random walks -> %d events %.1fs" % (
+        len(hists), sum(len(s) for s in segs), time.time() - t))
+    t1, st = vlib.judge("TraceStore.tla", segs, res.wd, "store", shards=8)
+    res.add_judge("store", t1, st, only_props={"C12"})
+    # non-trivial: probes/updates on states holding a tombstone or a removed argument
+    nt = set()
+    for seg in segs:
+        removed = False
+        for e in seg[1:]:
+            if e["o"]["op"] in ("rmarg", "rmatt") and e["res"] == "ok" and e["ev"] == "u":
+                removed = True
+            if removed:
+                nt.add((json.dumps(seg[0]), json.dumps(e["o"]), e["ev"], json.dumps(e["proj"]["atts"]), json.dumps(e["proj"]["args"])))
+    res.nontrivial = len(nt)
+    res.rule = ("every (state, operation) edge of Store.tla's state graph (3 labels, ids <= 4/5) executed on AAFramework<usize> and "
+                "AAFramework<String>, plus seeded random histories over 3-6 labels; non-trivial = event after at least one successful removal "
+                "(tombstones / id holes present), distinct by (history start, operation, projection)")
+    res.samples = [{"history_start": segs[len(segs) // 2][0], "events": segs[len(segs) // 2][1:4]}]
+    res.exhaustive = False
+    res.extra["exhaustive_part"] = "all (state, operation) edges of the abstract store with 3 labels and <= %d issued ids; StoreImpl refinement for all concrete states within MaxIds/MaxAttVec" % (5 if thorough else 4)
+    res.assumptions = ["Store.tla is the 'plain set-based model' of the property", "histories start from default()/new_with_labels; duplicates inserted by crate-private new_attack_by_ids are outside C12's quantifier"]
+    return res.finish()
